@@ -105,6 +105,8 @@ where stepGetx (s : CState) (toks : List String) : Option (CState × String) :=
       | r => s!"{showCheck r} {dump m}")
   | ["LTKEY", u, r, p] =>
     some (s, showHex (Spec.md5 (hex! u ++ [58] ++ hex! r ++ [58] ++ hex! p)))
+  -- the harness fills the getters' destination values with leftovers of an earlier use: results do not depend on them
+  | ["PRIME", _] => some (s, "ok")
   | ["FPVAL", h] => some (s, s!"{fingerprintValue (hex! h)}")
   | ["HMAC1", k, h] => some (s, showHex (Spec.hmacSHA1 (hex! k) (hex! h)))
   | _ => none
